@@ -7,7 +7,7 @@ SPEC = {
     "harness_args": {"quick": ["-n", 600, "-storm", 150], "thorough": ["-n", 5000, "-storm", 1500]},
     "timeout": {"quick": 600, "thorough": 3000},
     "level": "proof",
-    "tie": "T2: tools/facts_c16c17 regenerates Generated/FactsC16.lean from the working tree (DBDELIMITER, USERCOLSDIR, the shape of every node-db key / scan prefix / filepath.Join below userCollections, the collection-id limits of the v1 and v2 handlers) and Props.lean pins the model to it; T3: go/cmd/c16 drives interleaved multi-user HTTP histories (httptest server, production router, real single node) and the Lean model on the same op lines, and evaluates the isolation oracle (responses and on-disk shard directories of every user equal those of a run without the other users) directly on the real node; the middleware variant (does it refuse 'X-User-Id: .') is probed at run time and told to the model; concurrent phase (go/cmd/c16/storm.go): one HTTP client per (tenant, collection) of tenants whose ids and collection names collide under every delimiter-free or reversed gluing, all clients at once, each tenant's answers and shard directories compared with a run of that tenant alone and with the model run client by client; T2 also pins the field list of struct ClusterNode and what the collection-level actions reach through their receiver",
+    "tie": "T2: tools/facts_c16c17 regenerates Generated/FactsC16.lean from the working tree (DBDELIMITER, USERCOLSDIR, the shape of every node-db key / scan prefix / filepath.Join below userCollections, the collection-id limits of the v1 and v2 handlers) and Props.lean pins the model to it; T3: go/cmd/c16 drives interleaved multi-user HTTP histories (httptest server, production router, real single node) and the Lean model on the same op lines, and evaluates the isolation oracle (responses and on-disk shard directories of every user equal those of a run without the other users) directly on the real node; the middleware variant (does it refuse 'X-User-Id: .') is probed at run time and told to the model; concurrent phase (go/cmd/c16/storm.go): one HTTP client per (tenant, collection) of tenants whose ids and collection names collide under every delimiter-free or reversed gluing, all clients at once, each tenant's answers and shard directories compared with a run of that tenant alone; the CONCURRENT model is executed on the storm's own schedule: every storm line carries the request's window (global sequence counter before sending / after the answer) and the real answer, and the driver searches for a schedule of the two-atomic-step system `crun` (C16_concurrent / C16_any_interleaving) that respects the observed partial order and reproduces every answer, then runs `crun` on it (`storm end` => ok / no-linearisation); T2 also pins the field list of struct ClusterNode and what the collection-level actions reach through their receiver",
     "required_theorems": [
         "Sema.C16.C16_key_inj", "Sema.C16.C16_prefix", "Sema.C16.C16_path_inj", "Sema.C16.C16_path_not_nested",
         "Sema.C16.C16_accept_valid", "Sema.C16.C16_accept_complete", "Sema.C16.C16_collid_valid",
